@@ -124,10 +124,24 @@ class Compiler:
             {}
         )  # bytecode_pos -> (line, column)
         self._current_loc: Optional[Tuple[int, int]] = None  # Current source location
+        self._hoisted: set = set()  # ids of function declarations compiled on entry
+
+    def _hoist_function_declarations(self, body: List[Node]) -> None:
+        """Function declarations are initialised when their scope is entered.
+
+        `g(); function g() {}` is valid: the declarations directly contained
+        in a program or function body are compiled first, in source order,
+        and skipped where they stand.
+        """
+        for stmt in body:
+            if isinstance(stmt, FunctionDeclaration):
+                self._compile_statement(stmt)
+                self._hoisted.add(id(stmt))
 
     def compile(self, node: Program) -> CompiledFunction:
         """Compile a program to bytecode."""
         body = node.body
+        self._hoist_function_declarations(body)
 
         # Compile all statements except the last one
         for stmt in body[:-1] if body else []:
@@ -910,6 +924,8 @@ class Compiler:
             self.loop_stack.pop()
 
         elif isinstance(node, FunctionDeclaration):
+            if id(node) in self._hoisted:
+                return  # already initialised on entry to the scope
             # Compile function
             func = self._compile_function(node.id.name, node.params, node.body)
             func_idx = len(self.functions)
@@ -1127,6 +1143,7 @@ class Compiler:
             self._emit(OpCode.RETURN)
         else:
             # Block body: compile statements
+            self._hoist_function_declarations(node.body.body)
             for stmt in node.body.body:
                 self._compile_statement(stmt)
             # Implicit return undefined
@@ -1224,6 +1241,7 @@ class Compiler:
         self._outer_locals.pop()
 
         # Compile function body
+        self._hoist_function_declarations(body.body)
         for stmt in body.body:
             self._compile_statement(stmt)
 
